@@ -155,7 +155,9 @@ def gen_schedules(fam, tier, seed, work):
                      "wall_s": round(wall, 1)})
         shutil.rmtree(d, ignore_errors=True)
     for sc in fam.get("scenarios", []):
-        d = os.path.join(work, "rep-" + sc["cfg"])
+        if not os.path.exists(os.path.join(VERIF, "scenarios", sc["file"])):
+            continue
+        d = os.path.join(work, "rep-" + sc["cfg"] + "-" + sc["file"])
         spec_copy(d)
         shutil.copy(os.path.join(VERIF, "scenarios", sc["file"]), os.path.join(d, "labels.ndjson"))
         out, rc, wall = tlc(d, sc["module"], sc["cfg"], workers=1, timeout=600)
